@@ -141,8 +141,49 @@ def check_deep(acc, pattern, L, order):
     acc.outcome('rt', ('deep', pattern, L, order))
 
 
+COMMENT_CHARS = ['\x0b', '\x0c', '\x1c', '\x1d', '\x1e', '\x1f', '\x85', '\u2028', '\u2029', '\t', '\xa0', '\u3000', '\ufeff', '\x00']
+
+
+def check_comment_chars(acc):
+    """Comment lines may contain anything up to the end of the line ('\n'): characters that other notions of
+    "line" or "blank" treat specially must not end the comment or be executed as text."""
+    from cirbo.core.circuit import Circuit
+
+    good = 'INPUT(a)\nINPUT(b)\nOUTPUT(y)\ny = AND(a, b)\nq = NOT(a)\n'
+    want = _denoted(good)
+    tails = ['OUTPUT(q)', 'y = OR(a, b)', 'INPUT(zz)', 'plain words']
+    for ch in COMMENT_CHARS:
+        for tail in tails:
+            for where in (0, 2, 3, 5):
+                lines = good.split('\n')[:-1]
+                lines.insert(where, f'# disabled:{ch}{tail}')
+                text = '\n'.join(lines) + '\n'
+                for via in ('string', 'file'):
+                    acc.states += 1
+                    case = {'comment_char': repr(ch), 'tail': tail, 'line': where, 'via': via}
+                    if via == 'string':
+                        _parse_expect(acc, 'comment', case, text, want)
+                    else:
+                        acc.transitions += 1
+                        acc.traces += 1
+                        path = os.path.join(_tmpdir(), f'cc{os.getpid()}.bench')
+                        with open(path, 'w', encoding='utf-8', newline='') as f:
+                            f.write(text)
+                        try:
+                            c = Circuit.from_bench_file(path)
+                        except Exception as e:  # noqa: BLE001
+                            acc.violation(f'comment/raises-{type(e).__name__}', case, repr(e)[:200])
+                            continue
+                        if not _same(refmodel.abstract(c), want):
+                            acc.violation('comment/parsed-netlist-differs', case, f'{refmodel.abstract(c).to_json()}')
+    acc.outcome('rt', ('comment-chars',))
+
+
 def plan(tier):
-    t = [{'kind': 'wide', 'n': 0, 'k': 0, 'prefix': [], 'alpha': 'FULL'}, {'kind': 'sequences'}]
+    t = [{'kind': 'wide', 'n': 0, 'k': 0, 'prefix': [], 'alpha': 'FULL'}, {'kind': 'sequences'}, {'kind': 'commentchars'}]
+    for pat in ('not-and', 'xor-nor'):
+        for order in ('forward', 'reversed'):
+            t.append({'kind': 'deep', 'pattern': pat, 'L': space.HUGE_LENGTH, 'order': order})
     for pat in DEEP_BENCH_PATTERNS:
         for L in space.DEEP_LENGTHS[tier]:
             for order in ('forward', 'reversed', 'interleaved'):
@@ -175,7 +216,7 @@ def plan(tier):
 
 def describe(tier):
     return {
-        'rule': 'sequences: 8 first texts (7 malformed in different ways, 1 well formed) x 3 well-formed second texts x {string, file}: the second parse must be exactly what its text denotes; deep: chain texts of 1200/3000 (7000) gates, lines in definition order / from the output down / interleaved; wide: gates with up to 130 operands / 66-character labels (long lines) by string and file; rt: circuit of F(n,k,A) x output policy x 22 label schemes (keyword-prefixed, operator-named, '
+        'rule': 'huge: chain texts of 70000 gates (1.5 MB) forward and from the output down; comment lines containing each of 14 characters that some notion of line/blank treats specially (VT, FF, FS..US, NEL, LS, PS, TAB, NBSP, BOM, NUL) followed by text that looks like a declaration, at 4 positions, by string and file; sequences: 8 first texts (7 malformed in different ways, 1 well formed) x 3 well-formed second texts x {string, file}: the second parse must be exactly what its text denotes; deep: chain texts of 1200/3000 (7000) gates, lines in definition order / from the output down / interleaved; wide: gates with up to 130 operands / 66-character labels (long lines) by string and file; rt: circuit of F(n,k,A) x output policy x 22 label schemes (keyword-prefixed, operator-named, '
         'punctuated, digit-first labels rotated through every node position) x storage orders (creation order, '
         'reversed via rename, inputs reordered) -> parse(format(c)) == c and from_bench_file(save_to_file(c)) == c. '
         'perm: every permutation of the text lines (INPUT/gate/OUTPUT lines, use before definition, outputs first). '
@@ -433,6 +474,8 @@ def run_task(task, acc):
         return check_wide(acc)
     if task['kind'] == 'sequences':
         return check_sequences(acc)
+    if task['kind'] == 'commentchars':
+        return check_comment_chars(acc)
     if task['kind'] == 'deep':
         return check_deep(acc, task['pattern'], task['L'], task['order'])
     alpha = ALPHAS[task['alpha']]
@@ -454,6 +497,8 @@ def replay(case, acc):
         return check_wide(acc)
     if 'first_text' in case:
         return check_sequences(acc)
+    if 'comment_char' in case:
+        return check_comment_chars(acc)
     if 'deep_chain' in case:
         return check_deep(acc, case['deep_chain'], case['length'], case['order'])
     if 'bench' in case:
